@@ -148,6 +148,7 @@ type ordinals struct {
 	dynCount    map[string]int
 	clos        map[*ssa.Function]int
 	allocByType map[string]int
+	mkByType    map[string]int
 	nextLoop    int           // next free global loop id (root loops come first)
 	subs        []*summarizer // inlined callees that contain loops, in order of their loop ids
 	closList    []*ssa.Function
@@ -172,7 +173,13 @@ func (o *ordinals) mkOrd(v ssa.Value) int {
 	if n, ok := o.mk[v]; ok {
 		return n
 	}
-	o.mk[v] = len(o.mk)
+	// rank among the make() results of the same type, like locals
+	ty := shortType(v.Type())
+	if o.mkByType == nil {
+		o.mkByType = map[string]int{}
+	}
+	o.mk[v] = o.mkByType[ty]
+	o.mkByType[ty]++
 	return o.mk[v]
 }
 
